@@ -319,7 +319,7 @@ Section Csv2.
     assert (Hcoords : concat (map (@tl V) data) = concat (map quad fracs)).
     { unfold data. rewrite map_map. cbn [tl]. f_equal. rewrite <- Hfr. rewrite map_map.
       generalize 0. induction (edges net) as [|e es IH]; intro k; [reflexivity|].
-      cbn [length seq combine map snd]. f_equal. apply IH. }
+      cbn [length seq combine map snd]. f_equal. apply IH. all: match goal with |- ?G => idtac "REMAIN" G end. }
     assert (Hids : map (fun r => hd v0 r) data = map (fun k => parse (printi k)) (seq 0 (length fracs))).
     { unfold data. rewrite map_map. cbn [hd]. rewrite <- Hlen.
       generalize 0. induction (edges net) as [|e es IH]; intro k; [reflexivity|].
